@@ -190,6 +190,7 @@ type X struct {
 	skipping   bool // the program called Skip and the panic is unwinding
 	attempts   int  // action attempts started in this invocation
 	siteDepth  int  // extra stack frames between a failure site and the signal
+	extraDepth int  // further recursive calls for the failure being raised right now (data dependent)
 }
 
 const (
@@ -404,7 +405,8 @@ func expectedMsg(k int, msg string) string {
 //
 //go:noinline
 func raise(x *X, t *rapid.T, k int, site int, msg string) {
-	x.inv.Intents = append(x.inv.Intents, Intent{Kind: failKindNames[k], Site: site, Msg: expectedMsg(k, msg), Fatal: kindFatal(k), Panic: kindPanic(k), Where: x.where})
+	// (a failure reached through d more recursive calls of the same helper has another call stack: another site)
+	x.inv.Intents = append(x.inv.Intents, Intent{Kind: failKindNames[k], Site: site + 10*x.extraDepth, Msg: expectedMsg(k, msg), Fatal: kindFatal(k), Panic: kindPanic(k), Where: x.where})
 	x.ev("signal %s site=%d", failKindNames[k], site)
 	switch k {
 	case fkPanicStr:
@@ -453,37 +455,37 @@ func raise(x *X, t *rapid.T, k int, site int, msg string) {
 
 //go:noinline
 func site0(x *X, t *rapid.T, k int, msg string) {
-	deepRaise(x, t, k, 0, msg, x.siteDepth)
+	deepRaise(x, t, k, 0, msg, x.siteDepth+x.extraDepth)
 	runtime.KeepAlive(x)
 }
 
 //go:noinline
 func site1(x *X, t *rapid.T, k int, msg string) {
-	deepRaise(x, t, k, 1, msg, x.siteDepth)
+	deepRaise(x, t, k, 1, msg, x.siteDepth+x.extraDepth)
 	runtime.KeepAlive(t)
 }
 
 //go:noinline
 func site2(x *X, t *rapid.T, k int, msg string) {
-	deepRaise(x, t, k, 2, msg, x.siteDepth)
+	deepRaise(x, t, k, 2, msg, x.siteDepth+x.extraDepth)
 	runtime.KeepAlive(k)
 }
 
 //go:noinline
 func site3(x *X, t *rapid.T, k int, msg string) {
-	deepRaise(x, t, k, 3, msg, x.siteDepth)
+	deepRaise(x, t, k, 3, msg, x.siteDepth+x.extraDepth)
 	runtime.KeepAlive(msg)
 }
 
 //go:noinline
 func site4(x *X, t *rapid.T, k int, msg string) {
-	deepRaise(x, t, k, 4, msg, x.siteDepth)
+	deepRaise(x, t, k, 4, msg, x.siteDepth+x.extraDepth)
 	runtime.KeepAlive(x)
 }
 
 //go:noinline
 func site5(x *X, t *rapid.T, k int, msg string) {
-	deepRaise(x, t, k, 5, msg, x.siteDepth)
+	deepRaise(x, t, k, 5, msg, x.siteDepth+x.extraDepth)
 	runtime.KeepAlive(t)
 }
 
@@ -579,16 +581,17 @@ func (p Pred) eval(x *X) bool {
 // program steps
 
 type Step struct {
-	Op    string // draw failif skipif repeat go ctx cleanup log
-	GX    *GX
-	Label string
-	Pred  Pred
-	Kind  int
-	Site  int
-	N     int
-	Acts  []Action
-	Inv   []Step // invariant ("" action); nil = none
-	Clean int    // cleanup behaviour
+	RecDepth bool   // failif: reach the failure site through 1-4 extra recursive calls, depending on the last integer drawn
+	Op       string // draw failif skipif repeat go ctx cleanup log
+	GX       *GX
+	Label    string
+	Pred     Pred
+	Kind     int
+	Site     int
+	N        int
+	Acts     []Action
+	Inv      []Step // invariant ("" action); nil = none
+	Clean    int    // cleanup behaviour
 	// Shared: the actions map of a repeat step is built once and reused for every invocation
 	Shared    bool
 	actsCache map[string]func(*rapid.T)
@@ -669,7 +672,17 @@ func (x *X) exec(steps []Step) {
 			x.draw(s.GX.Gen, s.Label)
 		case "failif":
 			if s.Pred.eval(x) {
+				if s.RecDepth {
+					// the depth of the recursion that leads to the failure depends on the data
+					for j := len(x.inv.Draws) - 1; j >= 0; j-- {
+						if d := x.inv.Draws[j]; d.IsInt && !d.Dead {
+							x.extraDepth = 1 + int(uint64(d.Int)%4)
+							break
+						}
+					}
+				}
 				x.fail(s.Kind, s.Site)
+				x.extraDepth = 0
 			}
 		case "skipif":
 			if s.Pred.eval(x) {
@@ -859,6 +872,7 @@ type progOpts struct {
 	// every action of the state machine has a failure site of its own that is reached through a fatal T method
 	// (Fatal/Fatalf/FailNow): several bugs that differ only in WHERE inside which action the test was stopped
 	fatalActions bool
+	recDepth     bool // failure sites are reached through a recursion whose depth depends on the data
 }
 
 func genProg(seed uint64, o progOpts) *Prog {
@@ -915,7 +929,7 @@ func genProg(seed uint64, o progOpts) *Prog {
 	for s := 0; s < ns; s++ {
 		kind := o.pickKind(r)
 		pred := o.failPred(r, p, s == 0 && o.siblings)
-		p.Steps = append(p.Steps, Step{Op: "failif", Pred: pred, Kind: kind, Site: s})
+		p.Steps = append(p.Steps, Step{Op: "failif", Pred: pred, Kind: kind, Site: s, RecDepth: o.recDepth && nInt > 0})
 	}
 	if o.skipAfter {
 		p.Steps = append(p.Steps, Step{Op: "skipif", Pred: hashPred(r, 2)})
